@@ -76,7 +76,9 @@ def build_loss(rec):
         ot = lambda i, o, p: o * p.eq_params["k1"] + p.eq_params["k2"]
     lo, hi = rec["sol"]
     u = make_pinn(rec["V"], eq_type, output_transform=ot, slice_solution=jnp.s_[lo - 1:hi])
-    params = jinns.parameters.Params(nn_params=u.init_params(), eq_params={k: jnp.array(float(v)) for k, v in zip(pkeys, rec["th"])})
+    pshape = (1,) if rec.get("pshape") == "one" else ()
+    params = jinns.parameters.Params(nn_params=u.init_params(),
+                                     eq_params={k: jnp.full(pshape, float(v)) for k, v in zip(pkeys, rec["th"])})
     R = rec["R"]
 
     def resid(inputs, uval, p):
@@ -84,6 +86,20 @@ def build_loss(rec):
         z = [inputs[i] for i in range(nin)] + [uval[i] for i in range(len(rec["V"]))] + th
         return jnp.stack([polyeval(r, z) for r in R])
 
+    het = None
+    if any(len(h) for h in rec.get("het", [])):
+        def mk_h(h):
+            def fun(inputs, p):
+                th = [jnp.squeeze(p.eq_params[k]) for k in pkeys]
+                return polyeval(h, [inputs[i] for i in range(nin)] + th)
+            if lkind == "ode":
+                return lambda t, u, p: fun(jnp.atleast_1d(t), p)
+            if lkind == "statio":
+                return lambda x, u, p: fun(x, p)
+            return lambda t, x, u, p: fun(jnp.concatenate([t, x]), p)
+        het = {k: mk_h(h) for k, h in zip(pkeys, rec["het"]) if len(h)}
+        if rec.get("hetmode") == "none_entries":
+            het.update({k: None for k, h in zip(pkeys, rec["het"]) if not len(h)})
     dyn = None
     if R:
         if lkind == "ode":
@@ -99,7 +115,7 @@ def build_loss(rec):
             class Eq(PDENonStatio):
                 def equation(self, t, x, u, p):
                     return resid(jnp.concatenate([t, x]), u(t, x, p), p)
-        dyn = Eq(Tmax=1)
+        dyn = Eq(Tmax=1, eq_params_heterogeneity=het)
 
     def wt(v):
         return float(v[0]) if len(v) == 1 else jnp.array([float(a) for a in v])
@@ -126,9 +142,11 @@ def build_loss(rec):
             kw.update(omega_boundary_fun=mk_f(b0), omega_boundary_condition=cname(b0["kind"]),
                       omega_boundary_dim=jnp.s_[b0["comp"][0] - 1:b0["comp"][1]])
         else:
-            kw.update(omega_boundary_fun={k: (mk_f(b) if b["kind"] != "none" else None) for k, b in zip(facets, rec["bnd"])},
-                      omega_boundary_condition={k: cname(b["kind"]) for k, b in zip(facets, rec["bnd"])},
-                      omega_boundary_dim={k: jnp.s_[b["comp"][0] - 1:b["comp"][1]] for k, b in zip(facets, rec["bnd"])})
+            fb = list(zip(facets, rec["bnd"]))
+            fb = [fb[i] for i in rec.get("keyorder", range(len(fb)))]          # insertion order of the user's dictionaries
+            kw.update(omega_boundary_fun={k: (mk_f(b) if b["kind"] != "none" else None) for k, b in fb},
+                      omega_boundary_condition={k: cname(b["kind"]) for k, b in fb},
+                      omega_boundary_dim={k: jnp.s_[b["comp"][0] - 1:b["comp"][1]] for k, b in fb})
     if rec["norm"]["on"]:
         kw.update(norm_samples=jnp.asarray(np.array(rec["norm"]["samples"], dtype=np.float64)), norm_int_length=float(rec["norm"]["L"]))
     osl = rec["obsd"]["slice"]
@@ -188,8 +206,245 @@ def run_loss(rec):
     return out
 
 
-RUNNERS = dict(operator=run_operator, loss=run_loss)
+# ---------------------------------------------------------------------------------- C13 systems
+def build_sysloss(rec):
+    import warnings
+
+    import jax.numpy as jnp
+    import jinns
+    from jinns.data._Batchs import ODEBatch, PDEStatioBatch, PDENonStatioBatch
+    from jinns.data._DataGenerators import append_obs_batch, append_param_batch
+    from jinns.loss import ODE, PDEStatio, PDENonStatio
+
+    warnings.simplefilter("ignore")
+    lkind, dim = rec["lkind"], rec["dim"]
+    has_t = lkind != "statio"
+    nin = dim + (1 if has_t else 0)
+    eq_type = {"ode": "ODE", "statio": "statio_PDE", "nonstatio": "nonstatio_PDE"}[lkind]
+    pkeys = ["k1", "k2"]
+    names = [n["name"] for n in rec["nets"]]
+    u_dict = {n["name"]: make_pinn([n["V"]], eq_type) for n in rec["nets"]}
+    pd = jinns.parameters.ParamsDict(nn_params={k: u.init_params() for k, u in u_dict.items()},
+                                     eq_params={k: jnp.array(float(v)) for k, v in zip(pkeys, rec["th"])})
+
+    def mk_eq(R):
+        def resid(inputs, ud, p):
+            th = [jnp.squeeze(p.eq_params[k]) for k in pkeys]
+            us = []
+            for nm in names:
+                pp = p.extract_params(nm)
+                if lkind == "ode":
+                    us.append(ud[nm](inputs, pp)[0])
+                elif lkind == "statio":
+                    us.append(ud[nm](inputs, pp)[0])
+                else:
+                    us.append(ud[nm](inputs[:1], inputs[1:], pp)[0])
+            return jnp.stack([polyeval(R, [inputs[i] for i in range(nin)] + us + th)])   # residual of shape (1,)
+        if lkind == "ode":
+            class Eq(ODE):
+                def equation(self, t, ud, p):
+                    return resid(jnp.atleast_1d(t), ud, p)
+        elif lkind == "statio":
+            class Eq(PDEStatio):
+                def equation(self, x, ud, p):
+                    return resid(x, ud, p)
+        else:
+            class Eq(PDENonStatio):
+                def equation(self, t, x, ud, p):       # documented order: (t, x, u_dict, params_dict)
+                    return resid(jnp.concatenate([t, x]), ud, p)
+        return Eq(Tmax=1)
+
+    dyn = {e["name"]: mk_eq(e["R"]) for e in rec["eqs"]}
+    scalar = rec["wform"] == "scalar"
+    wdyn = float(rec["eqs"][0]["w"]) if scalar else {e["name"]: float(e["w"]) for e in rec["eqs"]}
+    wu = lambda f: float(rec["wu"][0][f]) if scalar else {n: float(w[f]) for n, w in zip(names, rec["wu"])}
+    kw = {}
+    if lkind == "ode":
+        lw = jinns.loss.LossWeightsODEDict(dyn_loss=wdyn, initial_condition=wu("ic"), observations=wu("obs"))
+        ic = {n["name"]: ((float(n["ic"]["t0"]), jnp.array([float(v) for v in n["ic"]["u0"]])) if n["ic"]["on"] else None) for n in rec["nets"]}
+        if all(v is None for v in ic.values()):
+            ic = None
+        loss = jinns.loss.SystemLossODE(u_dict=u_dict, dynamic_loss_dict=dyn, initial_condition_dict=ic, loss_weights=lw, params_dict=pd)
+    else:
+        lw = jinns.loss.LossWeightsPDEDict(dyn_loss=wdyn, norm_loss=wu("norm"), boundary_loss=wu("bnd"), observations=wu("obs"),
+                                          initial_condition=wu("ic"))
+        if any(n["bnd"] and n["bnd"][0]["kind"] != "none" for n in rec["nets"]):
+            def mk_f(g):
+                def val(inputs):
+                    return jnp.stack([polyeval(g[0], [inputs[i] for i in range(nin)])])
+                return (lambda t, dx: val(jnp.concatenate([t, dx]))) if has_t else (lambda dx: val(dx))
+            cname = {"dirichlet": "dirichlet", "neumann": "von neumann"}
+            act = lambda n: n["bnd"] and n["bnd"][0]["kind"] != "none"
+            kw.update(omega_boundary_fun_dict={n["name"]: (mk_f(n["bnd"][0]["g"]) if act(n) else None) for n in rec["nets"]},
+                      omega_boundary_condition_dict={n["name"]: (cname[n["bnd"][0]["kind"]] if act(n) else None) for n in rec["nets"]},
+                      omega_boundary_dim_dict={n["name"]: (jnp.s_[0:1] if act(n) else None) for n in rec["nets"]})
+        if lkind == "nonstatio" and any(n["ic"]["on"] for n in rec["nets"]):
+            def mk_u0(n):
+                u0 = n["ic"]["u0"]
+                return lambda x: jnp.stack([polyeval(u0[0], [x[i] for i in range(dim)])])
+            kw.update(initial_condition_fun_dict={n["name"]: (mk_u0(n) if n["ic"]["on"] else None) for n in rec["nets"]})
+        loss = jinns.loss.SystemLossPDE(u_dict=u_dict, dynamic_loss_dict=dyn, loss_weights=lw, params_dict=pd, **kw)
+    inside = np.array(rec["inside"], dtype=np.float64).reshape(len(rec["inside"]), nin)
+    border = None
+    if rec["border"]:
+        nb = len(rec["border"][0])
+        border = np.zeros((nb, nin, len(rec["border"])))
+        for f, rows in enumerate(rec["border"]):
+            border[:, :, f] = np.array(rows, dtype=np.float64).reshape(nb, nin)
+        border = jnp.asarray(border)
+    if lkind == "ode":
+        batch = ODEBatch(temporal_batch=jnp.asarray(inside[:, 0]))
+    elif lkind == "statio":
+        batch = PDEStatioBatch(inside_batch=jnp.asarray(inside), border_batch=border)
+    else:
+        batch = PDENonStatioBatch(times_x_inside_batch=jnp.asarray(inside), times_x_border_batch=border)
+    if any(len(c) for c in rec["ptab"]):
+        batch = append_param_batch(batch, {k: jnp.asarray(np.array(c, dtype=np.float64))[:, None] for k, c in zip(pkeys, rec["ptab"]) if len(c)})
+    if any(n["obsd"]["on"] for n in rec["nets"]):
+        ob = {}
+        for n in rec["nets"]:
+            o = n["obsd"]
+            ob[n["name"]] = ({"pinn_in": jnp.asarray(np.array(o["in"], dtype=np.float64)), "val": jnp.asarray(np.array(o["val"], dtype=np.float64)),
+                              "eq_params": {}} if o["on"] else None)
+        batch = append_obs_batch(batch, ob)
+    return loss, pd, batch
+
+
+def run_sysloss(rec):
+    out = dict(rec)
+    zero = dict(n=0, d=1, ok=True)
+    try:
+        loss, pd, batch = build_sysloss(rec)
+        total, terms = loss.evaluate(pd, batch)
+    except Exception as ex:  # noqa
+        out["obs"] = dict(total=zero, **{k: zero for k in NAMES})
+        out["exc"] = f"{type(ex).__name__}: {str(ex)[:200]}"
+        return out
+    obs = {k: (frac(terms[k]) if k in terms else zero) for k in NAMES}
+    obs["total"] = frac(total)
+    out["obs"] = obs
+    out["exc"] = ""
+    return out
+
+
+RUNNERS = dict(operator=run_operator, loss=run_loss, sysloss=run_sysloss)
 
 
 def run_case(rec):
     return RUNNERS[rec["kind"]](rec)
+
+
+# ---------------------------------------------------------------------------------- C06
+def _grad_problem(lkind, seed):
+    """a loss whose every (term, group) pair has a non-zero gradient: u = V * k1 + k2 (affine output transform),
+    residual depending on u, k1, k2; all terms configured"""
+    import random
+
+    from . import lossrec
+
+    rng = random.Random(f"grad|{lkind}|{seed}")
+    jit = rng.randint(0, 2)
+    dim = 0 if lkind == "ode" else 1
+    has_t = lkind != "statio"
+    nin = dim + (1 if has_t else 0)
+    r = lossrec.base_record(rng, lkind, dim, nout=1, ot="affine", npar=2, nres=1)
+    r["V"] = [[dict(c=2 + jit, e=[1] + [0] * (nin - 1)), dict(c=1, e=[0] * (nin - 1) + [1]), dict(c=1 + jit, e=[0] * nin)]]
+    nv = nin + 1 + 2
+    e_u = [0] * nv
+    e_u[nin] = 1
+    e_k1 = [0] * nv
+    e_k1[nin + 1] = 1
+    e_k2x = [0] * nv
+    e_k2x[nin + 2] = 1
+    e_k2x[0] = 1
+    r["R"] = [[dict(c=1, e=e_u), dict(c=2, e=e_k1), dict(c=1, e=e_k2x)]]
+    r["th"] = [2, 3]
+    lossrec.set_inside(r, rng, 2)
+    if lkind == "ode":
+        r["ic"] = dict(on=True, t0=1, u0=[1])
+    if lkind == "nonstatio":
+        r["ic"] = dict(on=True, t0=0, u0=[[dict(c=1, e=[1])]])
+    if lkind != "ode":
+        r["norm"] = dict(on=True, samples=[[0], [1]], L=2)
+        lossrec.set_border(r, rng, 1, 1)
+        r["bnd"] = [dict(kind="dirichlet", g=[[dict(c=1, e=[0] * nin)]], comp=[1, 1]) for _ in range(2)]
+    r["obsd"] = dict(on=True, **{"in": [[1] * nin, [2] + [0] * (nin - 1)]}, val=[[1], [-2]], slice=[1, 1], etab=[[], []])
+    return r
+
+
+TERMS = dict(ode=["dyn_loss", "initial_condition", "observations"],
+             statio=["dyn_loss", "norm_loss", "boundary_loss", "observations"],
+             nonstatio=["dyn_loss", "norm_loss", "boundary_loss", "observations", "initial_condition"])
+
+
+def run_gradbatch(task):
+    """task: dict(kind='gradbatch', lkind, masks=[mask...], form='bool'|'str'|'default', seed)"""
+    import equinox as eqx
+    import jax
+    import jax.numpy as jnp
+    import jinns
+    from jinns.parameters import DerivativeKeysODE, DerivativeKeysPDEStatio, DerivativeKeysPDENonStatio, Params
+
+    lkind = task["lkind"]
+    terms = TERMS[lkind]
+    DK = dict(ode=DerivativeKeysODE, statio=DerivativeKeysPDEStatio, nonstatio=DerivativeKeysPDENonStatio)[lkind]
+    field = dict(dyn_loss="dyn_loss", initial_condition="initial_condition", observations="observations", norm_loss="norm_loss",
+                 boundary_loss="boundary_loss")
+
+    def mk_mask(m):  # m: [nn, k1, k2] booleans (python or traced)
+        return Params(nn_params=m[0], eq_params={"k1": m[1], "k2": m[2]})
+
+    def flat(g):
+        return [np.asarray(g.nn_params.C).ravel(), np.asarray(g.eq_params["k1"]).ravel(), np.asarray(g.eq_params["k2"]).ravel()]
+
+    # the numeric content is re-drawn (deterministically) until every (term, group) pair has a non-zero gradient
+    for attempt in range(25):
+        rec = _grad_problem(lkind, f"{task.get('seed', 0)}/{attempt}")
+        loss0, params, batch = build_loss(rec)
+
+        def with_keys(dk, loss0=loss0):
+            return eqx.tree_at(lambda l: l.derivative_keys, loss0, dk)
+
+        full = with_keys(DK(**{field[t]: mk_mask([True, True, True]) for t in terms}))
+        ref_vals = full.evaluate(params, batch)[1]
+        G = []
+        for t in terms:
+            g = jax.grad(lambda p: full.evaluate(p, batch)[1][t])(params)
+            G.append([fracs(v) for v in flat(g)])
+        if not any(all(q["n"] == 0 for q in grp) for row in G for grp in row):
+            break
+    else:
+        raise RuntimeError("vacuous C06 problem: some (term, group) pair has a zero gradient")
+    ref = [frac(ref_vals[t]) for t in terms]
+
+    @jax.jit
+    def total_grad(mflat):
+        dk = DK(**{field[t]: mk_mask([mflat[3 * k], mflat[3 * k + 1], mflat[3 * k + 2]]) for k, t in enumerate(terms)})
+        l = with_keys(dk)
+        (tot, tv), g = jax.value_and_grad(lambda p: l.evaluate(p, batch), has_aux=True)(params)
+        return tot, [tv[t] for t in terms], g
+
+    outs = []
+    for m in task["masks"]:
+        out = dict(kind="grad", lkind=lkind, mask=m["mask"], form=m.get("form", "bool"), G=G, ref=ref, exc="", src=m.get("src", "tlc"))
+        try:
+            form = m.get("form", "bool")
+            if form == "bool":
+                tot, tv, g = total_grad(jnp.asarray(np.array(m["mask"], dtype=bool).ravel()))
+            else:
+                if form == "default":
+                    l = eqx.tree_at(lambda l: l.derivative_keys, loss0, DK(params=params))
+                else:  # the string form of each term
+                    strs = {field[t]: m["strs"][k] for k, t in enumerate(terms)}
+                    l = with_keys(DK.from_str(params=params, **strs))
+                (tot, tvd), g = jax.value_and_grad(lambda p: l.evaluate(p, batch), has_aux=True)(params)
+                tv = [tvd[t] for t in terms]
+            out["obs"] = dict(total=frac(tot), terms=[frac(v) for v in tv], grad=[fracs(v) for v in flat(g)])
+        except Exception as ex:  # noqa
+            out["obs"] = dict(total=dict(n=0, d=1, ok=True), terms=[], grad=[])
+            out["exc"] = f"{type(ex).__name__}: {str(ex)[:200]}"
+        outs.append(out)
+    return dict(_many=outs)
+
+
+RUNNERS["gradbatch"] = run_gradbatch
